@@ -37,11 +37,55 @@ def kinds(outcomes):
     return dt, pt_, de, pe
 
 
+def two_valued(prog, ty):
+    """The two values of a mode parameter's type: (false-like, true-like) terms for bool; the two variants of a local two-variant
+    enum with constant variants (order of declaration); None otherwise."""
+    ty = ty.strip()
+    if ty == "bool":
+        return (("lit", False), ("lit", True))
+    adt = prog.adt(ty) if hasattr(prog, "adt") else None
+    if adt is not None and adt.get("kind") == "enum" and len(adt["variants"]) == 2 and all(not v["fields"] for v in adt["variants"]):
+        return tuple(("ctor", adt["path"] + "::" + v["name"], ()) for v in adt["variants"])
+    return None
+
+
 def flag_index(m):
-    """Index of the `parse_wild_cards` parameter (the last bool parameter)."""
+    """(index of the dialect parameter, index of the top-level parameter) of the tokenizer's main function.  Mode parameters are its
+    two-valued parameters (bool, or a private two-variant enum); which one is the dialect, and which value means what, is read from
+    the two public entry points: the dialect is the parameter the plain and the extended entry pass different values for."""
+    if getattr(m, "_flags", None) is not None:
+        return m._flags
+    prog = m.prog
     tys = m.fn.param_tys
-    idx = [i for i, t in enumerate(tys) if t.strip() == "bool"]
-    return idx[-1] if idx else None, (idx[0] if len(idx) > 1 else None)
+    idx = [i for i, t in enumerate(tys) if two_valued(prog, t) is not None]
+    m.flag_terms = {}
+    calls = {}
+    for name, val in (("try_tokenize_formula", False), ("try_tokenize_extended_formula", True)):
+        f = prog.lib_fn(T.TOK + name)
+        if f is None:
+            continue
+        fs = terms.Engine(prog, inline=True, hooks=__import__("evalnode").Hooks([T.TOK], opaque_names=[T.TOK + "try_tokenize_recursive"])).summary(f)
+        cc = [x for x in fs.all_sites() if x.kind == "call" and x.is_call_to("try_tokenize_recursive")]
+        if len(cc) == 1:
+            calls[val] = cc[0].args
+    fi = ti = None
+    if False in calls and True in calls:
+        differ = [i for i in idx if i < len(calls[False]) and calls[False][i] != calls[True][i]]
+        same = [i for i in idx if i < len(calls[False]) and calls[False][i] == calls[True][i]]
+        if len(differ) == 1:
+            fi = differ[0]
+            m.flag_terms[(fi, False)], m.flag_terms[(fi, True)] = calls[False][fi], calls[True][fi]
+        if len(same) == 1:
+            ti = same[0]
+            vals = two_valued(prog, tys[ti])
+            top = calls[False][ti]
+            m.flag_terms[(ti, True)] = top
+            m.flag_terms[(ti, False)] = vals[0] if vals[1] == top else vals[1]
+    if fi is None:
+        bl = [i for i in idx if tys[i].strip() == "bool"]
+        fi, ti = (bl[-1] if bl else None), (bl[0] if len(bl) > 1 else None)
+    m._flags = (fi, ti)
+    return m._flags
 
 
 # ------------------------------------------------------------------------------------------------ spelling (C06-R4)
@@ -251,7 +295,7 @@ def check_plain_mode(prog, rep, rule):
     flag, top = ("param", m.pn[fi]), (("param", m.pn[ti]) if ti is not None else None)
     recs = [x for x in m.summ.all_sites() if x.kind == "call" and x.is_call_to("try_tokenize_recursive")]
     for x in recs:
-        good = x.args[fi] == flag and (ti is None or x.args[ti] == ("lit", False))
+        good = x.args[fi] == flag and (ti is None or x.args[ti] == m.flag_terms.get((ti, False), ("lit", False)))
         rep.check(good, rule, f"tokenizer/recursion@{x.ordinal}", x.where(), "nested group: same mode, not top level",
                   f"recursive call passes ({', '.join(pt(a)[:30] for a in x.args[1:])})")
     if not recs:
@@ -263,7 +307,7 @@ def check_plain_mode(prog, rep, rule):
             continue
         fs = terms.Engine(prog, inline=True, hooks=__import__("evalnode").Hooks([T.TOK], opaque_names=[T.TOK + "try_tokenize_recursive"])).summary(f)
         cc = [x for x in fs.all_sites() if x.kind == "call" and x.is_call_to("try_tokenize_recursive")]
-        good = len(cc) == 1 and cc[0].args[fi] == ("lit", val) and (ti is None or cc[0].args[ti] == ("lit", True))
+        good = len(cc) == 1 and cc[0].args[fi] == m.flag_terms.get((fi, val), ("lit", val)) and (ti is None or cc[0].args[ti] == m.flag_terms.get((ti, True), ("lit", True)))
         rep.check(good, rule, name, f"{f.file}:{f.line}", f"{name} tokenizes with top_level = true, parse_wild_cards = {str(val).lower()}",
                   f"{name} calls the tokenizer with {[pt(a)[:30] for a in cc[0].args[1:]] if cc else None}")
 
@@ -338,6 +382,22 @@ def long_name_term(m):
                     if ls:
                         cands[y[1]] = cands.get(y[1], 0) + 1
                         names.update(ls)
+                if y[0] == "hof" and y[1] in ("find", "position", "any") and norm.strip_adapters(y[2])[0] in ("array", "vec"):
+                    # a table of (long name, ..) entries searched for the name that was read
+                    items = norm.strip_adapters(y[2])[1]
+                    b = y[3]
+                    if b[0] == "bin" and b[1] == "==":
+                        for a_, o_ in ((b[2], b[3]), (b[3], b[2])):
+                            comp = a_
+                            while comp[0] == "call" and len(comp[2]) == 1:
+                                comp = comp[2][0]
+                            if comp[0] in ("tproj", "field") and comp[1][0] == "elem" and str(comp[2]).isdigit():
+                                k_ = int(str(comp[2]))
+                                ls = [it[1][k_][1] for it in items if it[0] == "tuple" and k_ < len(it[1]) and it[1][k_][0] == "lit" and isinstance(it[1][k_][1], str)
+                                      and len(it[1][k_][1]) > 1]
+                                if ls and len(ls) == len(items):
+                                    cands[o_] = cands.get(o_, 0) + 1
+                                    names.update(ls)
         for y in [t] + list(subterms(t)):
             if y[0] == "switch":
                 ls = [d[1] for (d, g), v in y[2] if d[0] == "lit" and isinstance(d[1], str) and len(d[1]) > 1]
@@ -371,9 +431,9 @@ def decide_long(m, name_term, name, flag_value):
         feasible = True
         rest = []
         for c, pol in res:
-            v = nz(partial.simplify(rep_(c)))
+            v = nz(partial.simplify(T.table_fold(rep_(c), nz)))
             for _ in range(2):
-                v = nz(partial.simplify(v))
+                v = nz(partial.simplify(T.table_fold(v, nz)))
             if v == ("lit", True) and not pol or v == ("lit", False) and pol:
                 feasible = False
                 break
@@ -381,7 +441,9 @@ def decide_long(m, name_term, name, flag_value):
                 rest.append((v, pol))
         if not feasible:
             continue
-        t2 = nz(partial.simplify(rep_(t)))
+        t2 = nz(partial.simplify(T.table_fold(rep_(t), nz)))
+        for _ in range(2):
+            t2 = nz(partial.simplify(T.table_fold(t2, nz)))
         for conds, leaf in T.leaves(t2):
             ok = True
             for c, pol in conds:
